@@ -2,7 +2,10 @@ module verifharness
 
 go 1.23.0
 
-require github.com/monshunter/goat v0.0.0
+require (
+	github.com/go-git/go-git/v5 v5.16.0
+	github.com/monshunter/goat v0.0.0
+)
 
 require (
 	dario.cat/mergo v1.0.0 // indirect
@@ -12,7 +15,6 @@ require (
 	github.com/emirpasic/gods v1.18.1 // indirect
 	github.com/go-git/gcfg v1.5.1-0.20230307220236-3a3c6141e376 // indirect
 	github.com/go-git/go-billy/v5 v5.6.2 // indirect
-	github.com/go-git/go-git/v5 v5.16.0 // indirect
 	github.com/golang/groupcache v0.0.0-20241129210726-2c02b8208cf8 // indirect
 	github.com/jbenet/go-context v0.0.0-20150711004518-d14ea06fba99 // indirect
 	github.com/kevinburke/ssh_config v1.2.0 // indirect
